@@ -1,0 +1,196 @@
+//go:build verif
+
+package goja
+
+import (
+	"fmt"
+
+	"github.com/dop251/goja/unistring"
+)
+
+func verifC04TypeName(x interface{}) string { return fmt.Sprintf("%T", x) }
+
+// White-box accessors for verification property C04 (essential object invariants, every object kind
+// and key kind).  Add-only; compiled only with -tags verif.
+
+// VerifC04Prop is the stored representation of one property slot as baseObject keeps it:
+// absent, a plain Value, or a *valueProperty with all of its fields.
+type VerifC04Prop struct {
+	Kind         int // 0 = absent (nil), 1 = plain value, 2 = *valueProperty
+	Value        int // index into the value pool, -1 = nil, -2 = a value that is not in the pool
+	Writable     bool
+	Enumerable   bool
+	Configurable bool
+	Accessor     bool
+	Getter       int // index into the function pool, -1 = nil, -2 = not in the pool
+	Setter       int
+}
+
+// VerifC04Desc is a PropertyDescriptor over the pools: Value -1 = field absent; Getter/Setter
+// -2 = absent, -1 = present and undefined, >= 0 = function pool index.
+type VerifC04Desc struct {
+	Value                              int
+	Writable, Enumerable, Configurable Flag
+	Getter, Setter                     int
+}
+
+func verifC04PoolIdx(v Value, pool []Value) int {
+	if v == nil {
+		return -1
+	}
+	for i, p := range pool {
+		if p == v {
+			return i
+		}
+	}
+	if v == _undefined {
+		return -3
+	}
+	return -2
+}
+
+func verifC04FnIdx(f *Object, fns []*Object) int {
+	if f == nil {
+		return -1
+	}
+	for i, p := range fns {
+		if p == f {
+			return i
+		}
+	}
+	return -2
+}
+
+// VerifC04DecodeProp renders a stored slot over the pools. Value -3 = the undefined value.
+func VerifC04DecodeProp(v Value, vals []Value, fns []*Object) VerifC04Prop {
+	if v == nil {
+		return VerifC04Prop{Kind: 0, Value: -1, Getter: -1, Setter: -1}
+	}
+	if p, ok := v.(*valueProperty); ok {
+		return VerifC04Prop{
+			Kind:         2,
+			Value:        verifC04PoolIdx(p.value, vals),
+			Writable:     p.writable,
+			Enumerable:   p.enumerable,
+			Configurable: p.configurable,
+			Accessor:     p.accessor,
+			Getter:       verifC04FnIdx(p.getterFunc, fns),
+			Setter:       verifC04FnIdx(p.setterFunc, fns),
+		}
+	}
+	return VerifC04Prop{Kind: 1, Value: verifC04PoolIdx(v, vals), Getter: -1, Setter: -1}
+}
+
+// VerifC04DefineOwn calls the real baseObject._defineOwnProperty on a fresh ordinary object with the given
+// extensibility, an existing slot built from `existing` and the descriptor `d`.  It returns the stored
+// representation the caller of _defineOwnProperty would put into the slot, and ok.
+func VerifC04DefineOwn(r *Runtime, vals []Value, fns []*Object, existing VerifC04Prop, d VerifC04Desc, extensible bool) (VerifC04Prop, bool) {
+	obj := r.NewObject()
+	bo, _ := obj.self.(*baseObject)
+	if bo == nil {
+		panic("VerifC04DefineOwn: NewObject is not a *baseObject")
+	}
+	bo.extensible = extensible
+	pick := func(i int) Value {
+		if i < 0 {
+			return nil
+		}
+		return vals[i]
+	}
+	pickFn := func(i int) *Object {
+		if i < 0 {
+			return nil
+		}
+		return fns[i]
+	}
+	var existingValue Value
+	switch existing.Kind {
+	case 1:
+		existingValue = pick(existing.Value)
+	case 2:
+		existingValue = &valueProperty{
+			value:        pick(existing.Value),
+			writable:     existing.Writable,
+			enumerable:   existing.Enumerable,
+			configurable: existing.Configurable,
+			accessor:     existing.Accessor,
+			getterFunc:   pickFn(existing.Getter),
+			setterFunc:   pickFn(existing.Setter),
+		}
+	}
+	descr := PropertyDescriptor{
+		Value:        pick(d.Value),
+		Writable:     d.Writable,
+		Enumerable:   d.Enumerable,
+		Configurable: d.Configurable,
+	}
+	switch {
+	case d.Getter == -1:
+		descr.Getter = _undefined
+	case d.Getter >= 0:
+		descr.Getter = fns[d.Getter]
+	}
+	switch {
+	case d.Setter == -1:
+		descr.Setter = _undefined
+	case d.Setter >= 0:
+		descr.Setter = fns[d.Setter]
+	}
+	v, ok := bo._defineOwnProperty(unistring.String("p"), existingValue, descr, false)
+	if !ok {
+		return VerifC04Prop{Kind: 0, Value: -1, Getter: -1, Setter: -1}, false
+	}
+	return VerifC04DecodeProp(v, vals, fns), true
+}
+
+func (o *baseObject) verifC04Base() *baseObject { return o }
+
+// VerifC04Order is the lazy own-key ordering state of an object that stores its string keys in a baseObject.
+type VerifC04Order struct {
+	Ok                bool // false: the object kind does not expose a baseObject
+	Names             []string
+	LastSortedPropLen int
+	IdxPropCount      int
+	NumValues         int  // len(values)
+	AllInValues       bool // every name in propNames is a key of values
+	Extensible        bool
+	Impl              string // Go type of the objectImpl
+}
+
+// VerifC04PropOrder reads propNames / lastSortedPropLen / idxPropCount without triggering ensurePropOrder.
+func VerifC04PropOrder(o *Object) VerifC04Order {
+	var r VerifC04Order
+	if o == nil {
+		return r
+	}
+	r.Impl = verifC04TypeName(o.self)
+	b, ok := o.self.(interface{ verifC04Base() *baseObject })
+	if !ok {
+		return r
+	}
+	bo := b.verifC04Base()
+	r.Ok = true
+	r.LastSortedPropLen = bo.lastSortedPropLen
+	r.IdxPropCount = bo.idxPropCount
+	r.NumValues = len(bo.values)
+	r.Extensible = bo.extensible
+	r.AllInValues = true
+	for _, n := range bo.propNames {
+		r.Names = append(r.Names, n.String())
+		if _, ex := bo.values[n]; !ex {
+			r.AllInValues = false
+		}
+	}
+	return r
+}
+
+// VerifC04IsArrayIndexName exposes strToArrayIdx (the classifier fixPropOrder uses): ok iff s is an array index.
+func VerifC04IsArrayIndexName(s string) (uint32, bool) {
+	idx := strToArrayIdx(unistring.NewFromString(s))
+	return idx, idx != 0xFFFFFFFF
+}
+
+// VerifC04OwnSlot returns the stored representation of an own property (string or symbol key) over the pools.
+func VerifC04OwnSlot(o *Object, key Value, vals []Value, fns []*Object) VerifC04Prop {
+	return VerifC04DecodeProp(o.getOwnProp(key), vals, fns)
+}
